@@ -126,6 +126,7 @@ def run(tier):
     rule_R4(res, prog)
     rule_R5(res, prog)
     rule_R6(res, prog)
+    rule_R7(res, prog)
     return res.finish()
 
 
@@ -582,3 +583,50 @@ def rule_R6(res, prog):
                 res.instance(rid, "%s:%s return %s (may be MATRIXSSL_ERROR) stores *error first" % (fn.name, ln, pp(x["e"])[:24]), esc is None, finding=f_)
     res.stats["R6_decoders"] = sorted(f.name for f in decoders)
     res.floor(rid, 3)
+
+
+def rule_R7(res, prog):
+    """'hit a protocol, decoding or decryption error ... reports an error or close request on subsequent calls': the decoder
+    reports failures that produced no alert (an internal failure while the reply was built, e.g. an allocation) as
+    MATRIXSSL_ERROR with the cause in *error.  matrixSslReceivedData hands that cause to the application; on every path to
+    that return SSL_FLAGS_ERROR must have been set, so that the calls an application may still make (flush of the out
+    buffer, DTLS resend) refuse the half-built state instead of running on it."""
+    from sa import cfgutil as cu
+    rid = "C15.R7"
+    res.rule(rid, "matrixSslReceivedData sets SSL_FLAGS_ERROR on every path on which it returns the decoder's error cause")
+    ERRF = prog.const("SSL_FLAGS_ERROR")
+    fn = prog.fn("matrixSslReceivedData")
+    # the out-parameter variable handed to matrixSslDecode as `error`
+    dec = prog.fn("matrixSslDecode")
+    eidx = [i for i, p_ in enumerate(dec.params) if p_.get("n") == "error"]
+    evar = None
+    for b, ln, call in fn.calls():
+        if call.get("fn") == "matrixSslDecode" and eidx and eidx[0] < len(call.get("a", [])):
+            a0 = strip(call["a"][eidx[0]])
+            if a0 is not None and a0.get("k") == "un" and a0["op"] == "&" and (strip(a0["e"]) or {}).get("k") == "var":
+                evar = strip(a0["e"])["id"]
+    if evar is None:
+        raise AnalysisBroken("C15.R7: matrixSslReceivedData no longer passes a local to matrixSslDecode's error parameter")
+
+    def sets_error(x):
+        for m in walk(x):
+            if m.get("k") == "bin" and m["op"] == "|=" and (strip(m["l"]) or {}).get("f") == "flags":
+                r = strip(m["r"])
+                if r is not None and r.get("k") == "int" and r["v"] & ERRF:
+                    return True
+        return False
+    n = 0
+    for b in fn.blocks:
+        for i, ln, x in cu.block_exprs(b):
+            if x.get("k") == "ret" and x.get("e") is not None and (strip(x["e"]) or {}).get("id") == evar:
+                n += 1
+                esc = cu.escapes(fn, (fn.entry, None), sets_error, is_target=lambda y, x=x: y is x)
+                f_ = None
+                if esc is not None:
+                    f_ = Finding(PROP, rid, fn.name, "decoder error returned without flagging the session",
+                                 "%s:%s matrixSslReceivedData(): the decoder's error cause is returned (via lines %s) without ssl->flags |= "
+                                 "SSL_FLAGS_ERROR: the session stays usable for matrixSslGetOutdata / matrixDtlsGetOutdata, which then work on "
+                                 "a half-built reply flight (NULL read in sslEncodeResponse after an allocation failure)" % (
+                                     fn.relfile, ln, [p_[1] for p_ in esc[-6:-1]]), file=fn.relfile, line=ln)
+                res.instance(rid, "matrixSslReceivedData:%s return of the decoder's error cause under SSL_FLAGS_ERROR" % ln, esc is None, finding=f_)
+    res.floor(rid, 1)
